@@ -106,6 +106,12 @@ class Marker:
         return 'Marker(%s)' % self.name
 
 
+class Closure:
+    """a function defined inside the function being interpreted, with the scope it was defined in"""
+    def __init__(self, fi, env):
+        self.fi, self.env = fi, env
+
+
 class FuncRef:
     def __init__(self, fi):
         self.fi = fi
@@ -229,7 +235,7 @@ class Interp:
         self.exact_le = False    # True: a <= b is kept exact (not identified with a < b); used when ties are in the quantifier
 
     # ------------------------------------------------------------------ calls
-    def call(self, fi, args, kwargs=None, selfv=None, node=None):
+    def call(self, fi, args, kwargs=None, selfv=None, node=None, closure=None):
         kwargs = dict(kwargs or {})
         if selfv is not None:
             args = [selfv] + list(args)
@@ -241,6 +247,8 @@ class Interp:
         a = fi.node.args
         names = [x.arg for x in a.posonlyargs + a.args]
         env = {}
+        if closure is not None:
+            env.update({k_: v_ for k_, v_ in closure.items() if not k_.startswith('__')})
         for n, v in zip(names, args):
             env[n] = v
         if len(args) > len(names):
@@ -429,6 +437,10 @@ class Interp:
             return self.block(st.body, env, mod)
         if isinstance(st, ast.While):
             self._poison(st, env, Unk('while loop not modelled', st))
+            return None
+        if isinstance(st, ast.FunctionDef) and not st.decorator_list:
+            from .loader import FuncInfo
+            env[st.name] = Closure(FuncInfo(mod, None, st), env)       # free variables are read from the defining scope when called
             return None
         if isinstance(st, (ast.FunctionDef, ast.ClassDef)):
             env[st.name] = Unk('nested definition', st)
@@ -916,14 +928,39 @@ class Interp:
         if r is not None:
             return self._wrap_resolved(r)
         if e.id in mod.globals:
-            return self.expr(mod.globals[e.id], {'__module__': mod}, mod)
+            return self.module_value(mod, e.id)
         imp = mod.imports.get(e.id)
         if imp is not None and imp[0] != 'ext' and imp[1] in self.repo.modules and imp[2] and imp[2] in self.repo.modules[imp[1]].globals:
             other = self.repo.modules[imp[1]]              # a constant imported from another module of the package
-            return self.expr(other.globals[imp[2]], {'__module__': other}, other)
+            return self.module_value(other, imp[2])
         if e.id in BUILTINS:
             return Marker('builtins.' + e.id)
         return Unk('unbound name %s' % e.id, e)
+
+    def module_value(self, mod, name):
+        """value of a module-level name: the module body's simple statements (assignments to names, stores into their items,
+        augmented assignments) are interpreted once, in order, so that `TABLE = {}` followed by `TABLE['k'] = v` is the filled table"""
+        cache = self.__dict__.setdefault('_modenv', {})
+        if mod.name not in cache:
+            env = {'__module__': mod}
+            cache[mod.name] = env
+            for st in mod.tree.body:
+                ok = False
+                if isinstance(st, ast.Assign) and all(isinstance(t, ast.Name) or (isinstance(t, ast.Subscript) and isinstance(t.value, ast.Name) and t.value.id in env) for t in st.targets):
+                    ok = True
+                elif isinstance(st, ast.AugAssign) and isinstance(st.target, ast.Name) and st.target.id in env:
+                    ok = True
+                if ok:
+                    try:
+                        self.stmt(st, env, mod)
+                    except Exception:
+                        for t in (st.targets if isinstance(st, ast.Assign) else [st.target]):
+                            if isinstance(t, ast.Name):
+                                env[t.id] = Unk('module-level value of %s' % t.id, st)
+        env = cache[mod.name]
+        if name in env:
+            return env[name]
+        return self.expr(mod.globals[name], {'__module__': mod}, mod)
 
     def _expr(self, e, env, mod):
         if isinstance(e, ast.Constant):
@@ -989,6 +1026,10 @@ class Interp:
                     if t:
                         return v
                 return vals[-1]
+            if isinstance(e.op, ast.And) and any(t is False for t in tvs):
+                return False              # one operand is false whatever the undecided ones are
+            if isinstance(e.op, ast.Or) and any(t is True for t in tvs):
+                return True
             ps = []
             for v, t in zip(vals, tvs):
                 if t is not None:
@@ -1008,6 +1049,9 @@ class Interp:
             if dec is None:
                 dec = self._truth(self.expr(e.test, env, mod))
             if dec is None:
+                tv_ = self.expr(e.test, env, mod)
+                if isinstance(tv_, Arr) and tv_.ndim == 0 and tv_.mask is None and _is_boolean(tv_.poly):
+                    return merge_val(self.expr(e.body, env, mod), self.expr(e.orelse, env, mod), tv_.poly, e)
                 return Unk('conditional expression on a symbolic test', e)
             return self.expr(e.body if dec else e.orelse, env, mod)
         if isinstance(e, ast.Attribute):
@@ -1180,6 +1224,9 @@ class Interp:
             return a
         if isinstance(b, Unk):
             return b
+        if (a is None or b is None) and opn in (ast.Eq, ast.NotEq) and not (isinstance(a, Obj) or isinstance(b, Obj)):
+            same_ = a is None and b is None       # None == <array / number / string> is False
+            return same_ if opn is ast.Eq else not same_
         if _is_pyconst(a) and _is_pyconst(b):
             try:
                 return {ast.Eq: a == b, ast.NotEq: a != b, ast.Lt: a < b, ast.Gt: a > b, ast.LtE: a <= b, ast.GtE: a >= b}[opn]
@@ -1529,6 +1576,8 @@ class Interp:
         if isinstance(f, Bound):
             self.trace.append((f.fi.qual, args, kw, e, mod.path))
             return self.call(f.fi, args, kw, selfv=f.selfv, node=e)
+        if isinstance(f, Closure):
+            return self.call(f.fi, args, kw, node=e, closure=f.env)
         if isinstance(f, ClassRef):
             r = self.hooks.construct(self, f.ci, args, kw, e)
             if r is not NotImplemented:
@@ -1904,6 +1953,7 @@ class Interp:
                         return _Range(lab)
                 return Unk('range%r' % (tuple(args),), e)
             if last == 'zip' and len(args) >= 2 and not kw:
+                args = [(x.sl_iter(self) if isinstance(x, Foreign) and x.sl_iter(self) is not NotImplemented else x) for x in args]
                 if all(isinstance(x, (list, tuple)) for x in args):
                     return [tuple(r) for r in zip(*args)]
                 labs = set()
